@@ -2,6 +2,9 @@
   Driver.C03 — runs the C03 CodeModel (layout IR semantics over the regenerated and the
   hand-written pack layouts) on request lines.
 
+    EF <record>            →  EventPack.Write's attribute folding (Packs.Event.fold): the table as on the wire
+    EU <record>            →  EventPack.Read's unfolding (Packs.Event.unfold) of a wire table
+    C <hex>                →  a type-tagged pack tree (CompositePack to any depth, Packs.Tree.readPT) decoded
     E <Type> <record>      →  <hex of T.w written for the record>
     D <Type> <hex>         →  ok <record read by T.r> <bytes left>   |  fail
     H <hex>                →  header decode: ok Pcode=…;… <bytes left> | fail
@@ -16,6 +19,8 @@
 import Golib.Layout.IR
 import Golib.Packs.Hand
 import Golib.Packs.Irregular
+import Golib.Packs.Event
+import Golib.Packs.Tree
 import Golib.Gen.PackLayouts
 import Driver.Common
 import Std.Data.HashMap
@@ -138,21 +143,21 @@ def showOut (o : Out) : String :=
 
 /-! ### the layouts by type name -/
 
-def smBaseR : L :=
-  Packs.Irregular.SMBasePack.r Gen.Packs.CpuLinux.r Gen.Packs.MemoryLinux.r Gen.Packs.CpuWindow.r Gen.Packs.MemoryWindow.r
+def smBaseR : L := Gen.Packs.SMBasePack.r
 
-/-- `SMBasePack.Write` dispatches on the dynamic type of Cpu/Memory: the writer layout of the record's OS class -/
+/-- `SMBasePack.Write` dispatches on the dynamic type of Cpu/Memory: the transcribed writer instantiated
+    with the layouts of the record's OS class -/
 def smBaseW (os : Int) : L :=
-  if os = 2 then Packs.Irregular.SMBasePack.w os Gen.Packs.CpuWindow.w Gen.Packs.MemoryWindow.w
-  else Packs.Irregular.SMBasePack.w os Gen.Packs.CpuLinux.w Gen.Packs.MemoryLinux.w
+  if os = 2 then Gen.Packs.SMBasePack.w Gen.Packs.CpuWindow.w Gen.Packs.MemoryWindow.w
+  else Gen.Packs.SMBasePack.w Gen.Packs.CpuLinux.w Gen.Packs.MemoryLinux.w
 
 def hand : List (String × L × L) := [
   ("TagCountPack", Packs.Hand.TagCountPack.w, Gen.Packs.TagCountPack.r),
   ("TagLogPack", Packs.Hand.TagLogPack.w, Gen.Packs.TagLogPack.r),
   ("LogSinkPack", Packs.Hand.LogSinkPack.w, Gen.Packs.LogSinkPack.r),
-  ("ParamPack", Packs.Hand.ParamPack.l, Packs.Hand.ParamPack.l),
+  ("ParamPack", Packs.Hand.ParamPack.w, Packs.Hand.ParamPack.r),
   ("ExtensionPack", Packs.Hand.ExtensionPack.w, Packs.Hand.ExtensionPack.r),
-  ("EventPack", Packs.Hand.EventPack.l, Packs.Hand.EventPack.l),
+  ("EventPack", Packs.Hand.EventPack.w, Packs.Hand.EventPack.r),
   ("CounterPack1", Packs.Irregular.CounterPack1.w, Packs.Irregular.CounterPack1.r),
   ("StatGeneralPack", Packs.Irregular.StatGeneralPack.l, Packs.Irregular.StatGeneralPack.l),
   ("StatGeneralPack1", Packs.Irregular.StatGeneralPack1.l, Packs.Irregular.StatGeneralPack1.l),
@@ -173,6 +178,40 @@ def recOf (m : Std.HashMap String Val) : Rec := fun k => (m.get? k).getD (.int 0
 
 /-- writer parameters travel in the record as `$name` -/
 def envOf (m : Std.HashMap String Val) : Env := fun k => ((m.get? ("$" ++ k)).getD (.int 0)).toInt
+
+/-! ### EventPack folding and the pack tree -/
+
+def bytesOf (v : Val) : Bytes := match v with | .bytes b => b | _ => []
+
+def attrsOf (x : Rec) : Packs.Event.Attrs :=
+  (List.range (x "Attr#").toInt.toNat).map (fun i =>
+    (bytesOf (x s!"Attr[{i}].key"), bytesOf (x s!"Attr[{i}].val")))
+
+def attrsOut (a : Packs.Event.Attrs) : Out :=
+  ("Attr#", Val.int a.length) ::
+    ((List.range a.length).zip a).flatMap (fun (i, kv) =>
+      [(s!"Attr[{i}].key", Val.bytes kv.1), (s!"Attr[{i}].val", Val.bytes kv.2)])
+
+def evOf (x : Rec) : Packs.Event.Ev :=
+  ⟨bytesOf (x "Uuid"), (x "Escalation").toInt != 0, (x "Status").toInt, (x "Otype").toInt, attrsOf x⟩
+
+def evOut (e : Packs.Event.Ev) : Out :=
+  [("Uuid", .bytes e.uuid), ("Escalation", .int (if e.esc then 1 else 0)), ("Status", .int e.status),
+   ("Otype", .int e.otype)] ++ attrsOut e.attrs
+
+/-- the factory of the model: `Gen.Packs.registry` (type code ↦ type) through the layout table -/
+def factory : Packs.Factory := fun code =>
+  match Gen.Packs.registry.lookup code with
+  | some ty => (table.get? ty).map (·.2)
+  | none => none
+
+partial def showTree (pfx : String) : Packs.CT → Out
+  | .leaf code o => (pfx ++ "!", Val.int code) :: o.map (fun (k, v) => (pfx ++ "." ++ k, v))
+  | .comp h kids =>
+    let p := if pfx == "" then "" else pfx ++ "."
+    ((if pfx == "" then [] else [(pfx ++ "!", Val.int Packs.compositeCode)]) ++ hdrOut p h ++
+      [(p ++ "pack#", Val.int kids.length)]) ++
+      ((List.range kids.length).zip kids).flatMap (fun (i, k) => showTree s!"{p}pack[{i}]" k)
 
 def answer (line : String) : String :=
   match line.splitOn " " with
@@ -196,6 +235,21 @@ def answer (line : String) : String :=
     | some bs =>
       match P.run decHeader bs with
       | some (h, rest) => s!"ok {showOut (hdrOut "" h)} {rest.length}"
+      | none => "fail"
+    | none => "bad-hex"
+  | ["EF", rec] =>
+    match parseRecord rec with
+    | some m => showOut (attrsOut (Packs.Event.fold (evOf (recOf m))))
+    | none => "bad-record"
+  | ["EU", rec] =>
+    match parseRecord rec with
+    | some m => showOut (evOut (Packs.Event.unfold (attrsOf (recOf m))))
+    | none => "bad-record"
+  | ["C", hex] =>
+    match ofHex hex with
+    | some bs =>
+      match Packs.readPT factory 8 bs with
+      | some (t, rest) => s!"ok {showOut (showTree "" t)} {rest.length}"
       | none => "fail"
     | none => "bad-hex"
   | ["T"] => ",".intercalate (table.toList.map (·.1))
